@@ -213,6 +213,14 @@ def interfere(variant):
     # hooks raise, as an alternative of any / an element / a value of a key)
     if not variant:
         return
+    # generations that end in an exception, from inside nested containers
+    for unsat in (d42.schema.list(d42.schema.float.min(0.11).max(0.12).precision(1)).len(2),
+                  d42.schema.dict({"a": d42.schema.list(d42.schema.str.alphabet("")).len(1)}),
+                  d42.schema.list(d42.schema.list(d42.schema.str.regex("[^ -~]")).len(1)).len(1)):
+        try:
+            d42.fake(unsat)
+        except Exception:
+            pass
     bad = _raising_custom()
     for sch, val in ((d42.schema.any(d42.schema.int, bad), None),
                      (d42.schema.list([d42.schema.int, bad]), ["x", 1]),
